@@ -128,7 +128,7 @@ func checkC01(c *Ctx) {
 	checkC01E2E(c)
 
 	// ---------------- (B) in-process histories
-	n := c.Pick(150, 2500)
+	n := c.Pick(150, 12000)
 	type evt struct {
 		tok  string
 		conn int
@@ -288,7 +288,7 @@ func checkC01(c *Ctx) {
 // ---- (A) end-to-end ---------------------------------------------------------------------------------------
 
 func checkC01E2E(c *Ctx) {
-	for i := 0; i < c.Pick(2, 12); i++ {
+	for i := 0; i < c.Pick(2, 30); i++ {
 		id := c.CaseID("e2e", i)
 		if c.Skip(id) {
 			continue
